@@ -108,7 +108,7 @@ fn ki7_inflate_copyblock() {
             }
         } else {
             let given = u32::from_be_bytes([input[copy], input[copy + 1], input[copy + 2], input[copy + 3]]);
-            let expect = model_fold(ck0, &input[..copy]);
+            let expect = adler32(ck0, &input[..copy]);
             if wrap & 4 != 0 && given != expect {
                 assert!(rc == ReturnCode::DataError && matches!(mode, Mode::Bad));
             } else {
@@ -119,7 +119,7 @@ fn ki7_inflate_copyblock() {
     // checksum: every produced byte folded exactly once when checking is on, never otherwise
     if !matches!(mode, Mode::Bad) {
         if wrap & 4 != 0 {
-            assert!(strm.state.checksum == model_fold(ck0, &input[..copy]));
+            assert!(strm.state.checksum == adler32(ck0, &input[..copy]));
         } else {
             assert!(strm.state.checksum == ck0);
         }
